@@ -11,6 +11,9 @@
  * in DEQUE_META["not_decided"] (protocol-level linearizability, ABA-tag sufficiency, reclamation, memory orders). */
 #include "deque.h"
 
+/* the deque under test is one global object (contracts and stubs name its anchor directly; `self` is always &g_q) */
+static struct deque g_q;
+
 /* ---- ghost state ---- */
 static bool lin;                       /* the call has taken its own (push/pop) step */
 static struct pair lin_old, lin_new;   /* anchor before/after that step */
@@ -72,7 +75,7 @@ static struct pair havoc_pair(void)
                                                (n).right.ptr = pick(); (n).right.tag = nondet_u16(); } } while (0)
 static void havoc_shared(struct deque *d)
 {
-  d->anchor_ = havoc_pair();
+  g_q.anchor_ = havoc_pair();
   HAVOC_NODE(g_n0); HAVOC_NODE(g_n1); HAVOC_NODE(g_n2); HAVOC_NODE(g_n3);
 }
 /* RELY.  Other threads run the same algorithm, so between two accesses of this call
@@ -91,13 +94,13 @@ static void interfere(struct deque *d)
   if (nondet_bool())
   {
     havoc_shared(d);
-    VX_ASSUME(S_OK(d->anchor_));
-    VX_ASSUME(!PEQ(d->anchor_, g_obs));
-    VX_ASSUME(g_own == NULL || NOREF(d->anchor_, g_own));
+    VX_ASSUME(S_OK(g_q.anchor_));
+    VX_ASSUME(!PEQ(g_q.anchor_, g_obs));
+    VX_ASSUME(g_own == NULL || NOREF(g_q.anchor_, g_own));
   }
   else if (nondet_bool())
   {
-    struct pair a = d->anchor_;
+    struct pair a = g_q.anchor_;
     if (a.ltag == lpush)
     {
       struct node *x = LNK_R(a.left);
@@ -115,17 +118,17 @@ static void interfere(struct deque *d)
 static struct pair anchor_load(struct deque *d)
 {
   interfere(d);
-  g_last_read = d->anchor_;
-  g_obs = d->anchor_;
+  g_last_read = g_q.anchor_;
+  g_obs = g_q.anchor_;
   g_validated = false;
-  return d->anchor_;
+  return g_q.anchor_;
 }
 /* deque_anchor::operator!=(pair) -- atomic load and compare */
 static bool anchor_ne(struct deque *d, struct pair *rhs)
 {
   interfere(d);
-  g_last_read = d->anchor_;
-  if (PEQ(d->anchor_, *rhs))
+  g_last_read = g_q.anchor_;
+  if (PEQ(g_q.anchor_, *rhs))
   {
     if (PEQ(*rhs, g_obs)) g_validated = true;
     return false;
@@ -136,11 +139,11 @@ static bool anchor_ne(struct deque *d, struct pair *rhs)
 static bool anchor_cas(struct deque *d, struct pair *expected, struct pair desired)
 {
   interfere(d);
-  g_last_read = d->anchor_;
-  if (PEQ(d->anchor_, *expected))
+  g_last_read = g_q.anchor_;
+  if (PEQ(g_q.anchor_, *expected))
   {
-    struct pair o = d->anchor_;
-    d->anchor_ = desired;
+    struct pair o = g_q.anchor_;
+    g_q.anchor_ = desired;
     if (g_steps < 2) g_steps++;
     g_step_old = o; g_step_new = desired;
     g_obs = desired;
@@ -150,7 +153,7 @@ static bool anchor_cas(struct deque *d, struct pair *expected, struct pair desir
       VX_REACH("helping_step");
       VX_ASSERT(T_STAB(o, desired), "an anchor in lpush/rpush state is only ever stabilized, (l,r,xpush,t) -> (l,r,stable,t+1): a pop or push step is taken only from a stable anchor");
       VX_ASSERT(BACKLINK_OK(o), "the anchor is stabilized only after the missing back link (l->right->left == l resp. r->left->right == r) is in place");
-      VX_ASSERT(S_OK(d->anchor_), "a stabilizing step keeps the representation invariant at both ends");
+      VX_ASSERT(S_OK(g_q.anchor_), "a stabilizing step keeps the representation invariant at both ends");
     }
     else
     {
@@ -166,9 +169,9 @@ static bool anchor_cas(struct deque *d, struct pair *expected, struct pair desir
       g_lin_ldata = DATA_OF(o.left);
       g_lin_rdata = DATA_OF(o.right);
       VX_ASSERT(OWN_OK(o, desired), OWN_TEXT);
-      VX_ASSERT(A_OK(d->anchor_), "the step keeps the invariant of the anchor word (both ends NULL or both non-NULL; one element => stable)");
+      VX_ASSERT(A_OK(g_q.anchor_), "the step keeps the invariant of the anchor word (both ends NULL or both non-NULL; one element => stable)");
 #if defined(U_PUSH_LEFT) || defined(U_PUSH_RIGHT)
-      VX_ASSERT(S_OK(d->anchor_), "a push step keeps the representation invariant at both ends (only the one back link is missing)");
+      VX_ASSERT(S_OK(g_q.anchor_), "a push step keeps the representation invariant at both ends (only the one back link is missing)");
       g_own = NULL;   /* published */
 #endif
 #if defined(U_SEQ)
@@ -177,8 +180,8 @@ static bool anchor_cas(struct deque *d, struct pair *expected, struct pair desir
     }
     return true;
   }
-  *expected = d->anchor_;
-  g_obs = d->anchor_;
+  *expected = g_q.anchor_;
+  g_obs = g_q.anchor_;
   g_validated = false;
   return false;
 }
@@ -223,7 +226,7 @@ static bool node_cas(struct deque *d, struct tptr *f, struct tptr *expected, str
 static struct node *alloc_node(struct deque *d, struct node *lptr, struct node *rptr, T v, int ltag, int rtag)
 {
   struct node *n = pick();
-  VX_ASSUME(n != NULL && NOREF(d->anchor_, n));
+  VX_ASSUME(n != NULL && NOREF(g_q.anchor_, n));
   VX_ASSERT(g_own == NULL, "one allocation per push");
   n->left = mk_tptr(lptr, ltag);
   n->right = mk_tptr(rptr, rtag);
@@ -249,14 +252,14 @@ void dealloc_node(struct deque *self, struct node *n)
 
 /* `anchor_pair& lrs` of stabilize*, lowered: the reference is a pointer, the name stays */
 #define lrs (*lrs_ref)
-#define STAB_ASSIGNS self->anchor_, *lrs_ref, POOL_OBJECTS, lin, lin_old, lin_new, g_lin_lr, g_lin_rl, g_lin_nr, g_lin_nl, g_lin_ldata, g_lin_rdata, \
+#define STAB_ASSIGNS g_q.anchor_, *lrs_ref, POOL_OBJECTS, lin, lin_old, lin_new, g_lin_lr, g_lin_rl, g_lin_nr, g_lin_nl, g_lin_ldata, g_lin_rdata, \
                      g_steps, g_step_old, g_step_new, g_last_read, g_obs, g_inward_seen, g_validated, g_own
 
 #ifdef U_STABILIZE_LEFT
 //@FUNC
 void stabilize_left(struct deque *self, struct pair *lrs_ref)
 /* lrs is a word this thread read from (or installed in) the anchor: status lpush */
-__CPROVER_requires(S_OK(self->anchor_) && A_OK(*lrs_ref) && lrs_ref->ltag == lpush && PEQ(*lrs_ref, g_obs))
+__CPROVER_requires(self == &g_q && S_OK(g_q.anchor_) && A_OK(*lrs_ref) && lrs_ref->ltag == lpush && PEQ(*lrs_ref, g_obs))
 __CPROVER_requires(!lin && g_steps == 0 && g_own == NULL)
 /* at most one anchor step, and it is exactly (l, r, lpush, t) -> (l, r, stable, t+1) for the lrs passed in (no step
  * if the anchor changed meanwhile); the stub has checked that the back link was in place at that moment */
@@ -272,7 +275,7 @@ void stabilize_left(struct deque *self, struct pair *lrs_ref)
 #ifdef U_STABILIZE_RIGHT
 //@FUNC
 void stabilize_right(struct deque *self, struct pair *lrs_ref)
-__CPROVER_requires(S_OK(self->anchor_) && A_OK(*lrs_ref) && lrs_ref->ltag == rpush && PEQ(*lrs_ref, g_obs))
+__CPROVER_requires(self == &g_q && S_OK(g_q.anchor_) && A_OK(*lrs_ref) && lrs_ref->ltag == rpush && PEQ(*lrs_ref, g_obs))
 __CPROVER_requires(!lin && g_steps == 0 && g_own == NULL)
 __CPROVER_ensures(!lin && g_steps <= 1)
 __CPROVER_ensures(g_steps == 1 ==> (PEQ(g_step_old, __CPROVER_old(*lrs_ref)) && T_STAB(g_step_old, g_step_new) && g_step_old.ltag == rpush))
@@ -287,7 +290,7 @@ void stabilize_right(struct deque *self, struct pair *lrs_ref)
 //@FUNC
 void stabilize(struct deque *self, struct pair *lrs_ref)
 /* called only with an unstable word */
-__CPROVER_requires(S_OK(self->anchor_) && A_OK(*lrs_ref) && lrs_ref->ltag != stable && PEQ(*lrs_ref, g_obs))
+__CPROVER_requires(self == &g_q && S_OK(g_q.anchor_) && A_OK(*lrs_ref) && lrs_ref->ltag != stable && PEQ(*lrs_ref, g_obs))
 __CPROVER_requires(!lin && g_steps == 0 && g_own == NULL)
 __CPROVER_ensures(!lin && g_steps <= 1)
 __CPROVER_ensures(g_steps == 1 ==> (PEQ(g_step_old, __CPROVER_old(*lrs_ref)) && T_STAB(g_step_old, g_step_new)))
@@ -304,7 +307,7 @@ void stabilize(struct deque *self, struct pair *lrs_ref)
 //@FUNC
 #endif
 bool pop_left(struct deque *self, T *r)
-__CPROVER_requires(S_OK(self->anchor_) && !lin && g_retired == 0 && g_own == NULL)
+__CPROVER_requires(self == &g_q && S_OK(g_q.anchor_) && !lin && g_retired == 0 && g_own == NULL)
 /* an element is taken ONLY by one successful step from a STABLE anchor: the last element (l == r) -> (NULL, NULL),
  * otherwise (l, r, stable) -> (l->right, r, stable) */
 __CPROVER_ensures(__CPROVER_return_value ==> (lin && lin_old.ltag == stable && (T_POP_LAST(lin_old, lin_new) || T_POP_LEFT(lin_old, lin_new, g_lin_lr))))
@@ -312,7 +315,7 @@ __CPROVER_ensures(__CPROVER_return_value ==> (lin && lin_old.ltag == stable && (
 __CPROVER_ensures(__CPROVER_return_value ==> (*r == g_lin_ldata && g_retired == 1 && g_retired_node == lin_old.left))
 /* false only after reading an empty anchor, without having taken a step or retired anything */
 __CPROVER_ensures(!__CPROVER_return_value ==> (!lin && g_retired == 0 && g_last_read.left == NULL))
-__CPROVER_assigns(*r, self->anchor_, POOL_OBJECTS, lin, lin_old, lin_new, g_lin_lr, g_lin_rl, g_lin_nr, g_lin_nl, g_lin_ldata, g_lin_rdata, g_steps, g_step_old, g_step_new, g_last_read, g_obs, g_inward_seen, g_validated, g_own, g_retired, g_retired_node)
+__CPROVER_assigns(*r, g_q.anchor_, POOL_OBJECTS, lin, lin_old, lin_new, g_lin_lr, g_lin_rl, g_lin_nr, g_lin_nl, g_lin_ldata, g_lin_rdata, g_steps, g_step_old, g_step_new, g_last_read, g_obs, g_inward_seen, g_validated, g_own, g_retired, g_retired_node)
 //@LIFT pop_left
 #endif
 
@@ -321,11 +324,11 @@ __CPROVER_assigns(*r, self->anchor_, POOL_OBJECTS, lin, lin_old, lin_new, g_lin_
 //@FUNC
 #endif
 bool pop_right(struct deque *self, T *r)
-__CPROVER_requires(S_OK(self->anchor_) && !lin && g_retired == 0 && g_own == NULL)
+__CPROVER_requires(self == &g_q && S_OK(g_q.anchor_) && !lin && g_retired == 0 && g_own == NULL)
 __CPROVER_ensures(__CPROVER_return_value ==> (lin && lin_old.ltag == stable && (T_POP_LAST(lin_old, lin_new) || T_POP_RIGHT(lin_old, lin_new, g_lin_rl))))
 __CPROVER_ensures(__CPROVER_return_value ==> (*r == g_lin_rdata && g_retired == 1 && g_retired_node == lin_old.right))
 __CPROVER_ensures(!__CPROVER_return_value ==> (!lin && g_retired == 0 && g_last_read.right == NULL))
-__CPROVER_assigns(*r, self->anchor_, POOL_OBJECTS, lin, lin_old, lin_new, g_lin_lr, g_lin_rl, g_lin_nr, g_lin_nl, g_lin_ldata, g_lin_rdata, g_steps, g_step_old, g_step_new, g_last_read, g_obs, g_inward_seen, g_validated, g_own, g_retired, g_retired_node)
+__CPROVER_assigns(*r, g_q.anchor_, POOL_OBJECTS, lin, lin_old, lin_new, g_lin_lr, g_lin_rl, g_lin_nr, g_lin_nl, g_lin_ldata, g_lin_rdata, g_steps, g_step_old, g_step_new, g_last_read, g_obs, g_inward_seen, g_validated, g_own, g_retired, g_retired_node)
 //@LIFT pop_right
 #endif
 
@@ -334,13 +337,13 @@ __CPROVER_assigns(*r, self->anchor_, POOL_OBJECTS, lin, lin_old, lin_new, g_lin_
 //@FUNC
 #endif
 bool push_left(struct deque *self, T data)
-__CPROVER_requires(S_OK(self->anchor_) && !lin && g_own == NULL && g_allocs == 0)
+__CPROVER_requires(self == &g_q && S_OK(g_q.anchor_) && !lin && g_own == NULL && g_allocs == 0)
 /* the new node n (carrying `data`) is published by exactly one step from a STABLE anchor: empty -> (n, n, stable),
  * otherwise (l, r, stable) -> (n, r, lpush) with n->right == l set before the step */
 __CPROVER_ensures(__CPROVER_return_value ==> (lin && g_allocs == 1 && lin_old.ltag == stable && lin_new.left != NULL && DATA_OF(lin_new.left) == data))
 __CPROVER_ensures(__CPROVER_return_value ==> (T_PUSH_EMPTY(lin_old, lin_new, lin_new.left) || (T_PUSH_LEFT(lin_old, lin_new, lin_new.left) && g_lin_nr == lin_old.left)))
 __CPROVER_ensures(!__CPROVER_return_value ==> !lin)
-__CPROVER_assigns(self->anchor_, POOL_OBJECTS, lin, lin_old, lin_new, g_lin_lr, g_lin_rl, g_lin_nr, g_lin_nl, g_lin_ldata, g_lin_rdata, g_steps, g_step_old, g_step_new, g_last_read, g_obs, g_inward_seen, g_validated, g_own, g_own_data, g_allocs)
+__CPROVER_assigns(g_q.anchor_, POOL_OBJECTS, lin, lin_old, lin_new, g_lin_lr, g_lin_rl, g_lin_nr, g_lin_nl, g_lin_ldata, g_lin_rdata, g_steps, g_step_old, g_step_new, g_last_read, g_obs, g_inward_seen, g_validated, g_own, g_own_data, g_allocs)
 //@LIFT push_left
 #endif
 
@@ -349,11 +352,11 @@ __CPROVER_assigns(self->anchor_, POOL_OBJECTS, lin, lin_old, lin_new, g_lin_lr, 
 //@FUNC
 #endif
 bool push_right(struct deque *self, T data)
-__CPROVER_requires(S_OK(self->anchor_) && !lin && g_own == NULL && g_allocs == 0)
+__CPROVER_requires(self == &g_q && S_OK(g_q.anchor_) && !lin && g_own == NULL && g_allocs == 0)
 __CPROVER_ensures(__CPROVER_return_value ==> (lin && g_allocs == 1 && lin_old.ltag == stable && lin_new.right != NULL && DATA_OF(lin_new.right) == data))
 __CPROVER_ensures(__CPROVER_return_value ==> (T_PUSH_EMPTY(lin_old, lin_new, lin_new.right) || (T_PUSH_RIGHT(lin_old, lin_new, lin_new.right) && g_lin_nl == lin_old.right)))
 __CPROVER_ensures(!__CPROVER_return_value ==> !lin)
-__CPROVER_assigns(self->anchor_, POOL_OBJECTS, lin, lin_old, lin_new, g_lin_lr, g_lin_rl, g_lin_nr, g_lin_nl, g_lin_ldata, g_lin_rdata, g_steps, g_step_old, g_step_new, g_last_read, g_obs, g_inward_seen, g_validated, g_own, g_own_data, g_allocs)
+__CPROVER_assigns(g_q.anchor_, POOL_OBJECTS, lin, lin_old, lin_new, g_lin_lr, g_lin_rl, g_lin_nr, g_lin_nl, g_lin_ldata, g_lin_rdata, g_steps, g_step_old, g_step_new, g_last_read, g_obs, g_inward_seen, g_validated, g_own, g_own_data, g_allocs)
 //@LIFT push_right
 #endif
 
@@ -362,9 +365,9 @@ __CPROVER_assigns(self->anchor_, POOL_OBJECTS, lin, lin_old, lin_new, g_lin_lr, 
 //@FUNC
 #endif
 bool empty(struct deque *self)
-__CPROVER_requires(S_OK(self->anchor_))
+__CPROVER_requires(self == &g_q && S_OK(g_q.anchor_))
 __CPROVER_ensures(__CPROVER_return_value == (g_last_read.left == NULL))
-__CPROVER_assigns(self->anchor_, POOL_OBJECTS, g_last_read, g_obs, g_validated)
+__CPROVER_assigns(g_q.anchor_, POOL_OBJECTS, g_last_read, g_obs, g_validated)
 //@LIFT empty
 #endif
 
@@ -378,17 +381,16 @@ static void init_ghosts(void)
 #ifndef U_SEQ
 void harness(void)
 {
-  struct deque q;
   init_ghosts();
   g_n0.data = nondet_int(); g_n1.data = nondet_int(); g_n2.data = nondet_int(); g_n3.data = nondet_int();
-  havoc_shared(&q);
+  havoc_shared(&g_q);
   g_obs = havoc_pair();
 #if defined(U_POP_LEFT) || defined(U_POP_RIGHT)
   T out = 0;
 #ifdef U_POP_LEFT
-  bool ok = pop_left(&q, &out);
+  bool ok = pop_left(&g_q, &out);
 #else
-  bool ok = pop_right(&q, &out);
+  bool ok = pop_right(&g_q, &out);
 #endif
   if (ok) VX_REACH("popped"); else VX_REACH("empty");
   if (ok && lin_old.left == lin_old.right) VX_REACH("popped_last_element");
@@ -397,27 +399,27 @@ void harness(void)
 #if defined(U_PUSH_LEFT) || defined(U_PUSH_RIGHT)
   T v = nondet_int();
 #ifdef U_PUSH_LEFT
-  bool ok = push_left(&q, v);
+  bool ok = push_left(&g_q, v);
 #else
-  bool ok = push_right(&q, v);
+  bool ok = push_right(&g_q, v);
 #endif
   if (ok && lin_old.left == NULL) VX_REACH("pushed_onto_empty");
   if (ok && lin_old.left != NULL) VX_REACH("pushed_onto_nonempty");
 #endif
 #if defined(U_STABILIZE_LEFT) || defined(U_STABILIZE_RIGHT) || defined(U_STABILIZE)
-  struct pair w = q.anchor_;
+  struct pair w = g_q.anchor_;
   g_obs = w;
 #if defined(U_STABILIZE_LEFT)
-  stabilize_left(&q, &w);
+  stabilize_left(&g_q, &w);
 #elif defined(U_STABILIZE_RIGHT)
-  stabilize_right(&q, &w);
+  stabilize_right(&g_q, &w);
 #else
-  stabilize(&q, &w);
+  stabilize(&g_q, &w);
 #endif
   if (g_steps == 1) VX_REACH("stabilized"); else VX_REACH("no_anchor_step");
 #endif
 #ifdef U_EMPTY
-  if (empty(&q)) VX_REACH("is_empty"); else VX_REACH("not_empty");
+  if (empty(&g_q)) VX_REACH("is_empty"); else VX_REACH("not_empty");
 #endif
 }
 #endif
